@@ -161,9 +161,15 @@ class SX:
         return SX("func", "ABS", self, type_=self.type)
 
     def __eq__(self, o):
+        if o is None or (isinstance(o, SX) and o.kind == "null" and not o.kw.get("bind")):
+            _ax("sqlalchemy: `x == None` / `x == null()` renders `x IS NULL` (a NULL *bind parameter* keeps `=`)")
+            return self.is_(null())
         return self._bin("=", o, type_=_sa.Boolean())
 
     def __ne__(self, o):
+        if o is None or (isinstance(o, SX) and o.kind == "null" and not o.kw.get("bind")):
+            _ax("sqlalchemy: `x != None` / `x != null()` renders `x IS NOT NULL`")
+            return self.is_not(null())
         return self._bin("!=", o, type_=_sa.Boolean())
 
     def __lt__(self, o):
@@ -296,7 +302,7 @@ def true():
 def literal(value, type_=None, literal_execute=False):
     t = _inst(type_) if type_ is not None else _py_type(value)
     if value is None:
-        return SX("null", type_=t)
+        return SX("null", type_=t, bind=True)  # a bind parameter holding NULL: comparisons keep `=` / `!=` (unlike the NULL constant)
     return SX("literal", value, type_=t)
 
 
